@@ -22,7 +22,9 @@ sys.path.insert(0, os.path.join(ROOT, "tools"))
 from props import PROPS  # noqa: E402
 
 SPEC = os.path.join(ROOT, "spec")
-HARNESS = os.path.join(ROOT, "harness")
+# EGV_HARNESS lets a developer point the orchestrator at a scratch copy of the harness (which may
+# depend on a scratch worktree of the repository); the registered checks never set it.
+HARNESS = os.environ.get("EGV_HARNESS") or os.path.join(ROOT, "harness")
 JAR = "/opt/veriftools/tla/tla2tools.jar:/opt/veriftools/tla/CommunityModules-deps.jar"
 NCPU = os.cpu_count() or 4
 
@@ -210,7 +212,7 @@ def write_evidence(pid, ev):
 def check(pid, tier, seed, replay=None):
     P = PROPS[pid]
     t0 = time.time()
-    workdir = os.path.join(ROOT, "work", pid + ("_replay" if replay else ""))
+    workdir = os.path.join(os.environ.get("EGV_WORK") or os.path.join(ROOT, "work"), pid + ("_replay" if replay else ""))
     shutil.rmtree(workdir, ignore_errors=True)
     os.makedirs(workdir)
     evx = {}
@@ -333,6 +335,14 @@ def check(pid, tier, seed, replay=None):
         log("VIOLATION property=%s replay=%s codes=%s" % (pid, path, ",".join(sorted(set(v["codes"])))))
     if len(seen_cases) > shown:
         log("... %d more violating cases not listed" % (len(seen_cases) - shown))
+    if violations:
+        groups = {}
+        for case, desc, v in violations:
+            key = (str((desc or {}).get("k", "?")), ",".join(sorted(set(v["codes"]))))
+            g = groups.setdefault(key, [0, desc, v])
+            g[0] += 1
+        for (k, codes), (n, desc, v) in sorted(groups.items()):
+            log("  group kind=%s codes=%s n=%d first=%s detail=%s" % (k, codes, n, json.dumps(desc)[:300], json.dumps(v["detail"])[:300]))
 
     # 6. evidence
     cases = sum(s["cases"] for s in summaries)
